@@ -657,4 +657,19 @@ def default_registry():
             brk('make_pair of %r' % t)
         return m.construct(fe, None, args, node)
     r.free['make_pair'] = h_make_pair
+
+    def h_max(fe, args, node):
+        if not args:    # std::numeric_limits<T>::max()
+            ct = fe.em.ctype(fe.ty(node))
+            if ct == 'I_t':
+                return 'CM_I_MAX'
+            if ct == 'U_t':
+                return '((U_t)-1)'
+            brk('numeric_limits<%s>::max()' % ct)
+        if len(args) == 2:
+            a, b = fe.expr(args[0]), fe.expr(args[1])
+            tmp = fe.new_tmp(fe.em.ctype(fe.ty(node).strip_ref()))
+            return '(%s = (%s < %s) ? %s : %s, %s)' % (tmp, a, b, b, a, tmp) if False else deref('((%s < %s) ? %s : %s)' % (a, b, addr(b), addr(a)))
+        brk('std::max with %d arguments' % len(args))
+    r.free['max'] = h_max
     return r
